@@ -228,8 +228,7 @@ class Gen:
             name, n = r.choice(self.threads)
             self.feat.add("thread-expr")
             return "(%s %s %s)" % (r.choice(["thread", "waitthread"]), name, " ".join(self.expr(d + 2) for _ in range(n)))
-        self.feat.add("method-expr")
-        return "(%s %s)" % (r.choice(["local", "level", "self"]), r.choice(["classname", "owner"])) if False else self.var()
+        return self.var()
 
     def cond(self, d=1):
         return "(%s)" % self.expr(d)
@@ -275,17 +274,17 @@ class Gen:
             "local.e2 = 5\nlocal.e1 = local.e2.f",
             "local.e1 = self.sr",
             "self.sw = 3",
-            "local.e1 = owner.f" if False else "local.e1 = self.sr2",
-            "local.e1 = 5[1]" if False else "local.e3 = 5\nlocal.e1 = local.e3[1][2]",
+            "local.e1 = self.sr2",
+            "local.e3 = 5\nlocal.e1 = local.e3[1][2]",
             "local.e1 = ( 1 2 3 )[7]",
             "error \"injected\"",
             "thread nosuchlabel",
             "goto nosuchlabel",
             "local.e1 = waitthread nosuchlabel 1",
-            "local.e1 = -\"abc\"" if False else "local.e1 = ~\"abc\"",
-            "local.e1 = int NULL" if False else "local.e1 = abs \"q\"",
+            "local.e1 = ~\"abc\"",
+            "local.e1 = abs \"q\"",
             "local.e1 = 1 << NIL",
-            "local.e1[NIL] = 1" if False else "local.e4 = \"s\"\nlocal.e4[1][2] = 3",
+            "local.e4 = \"s\"\nlocal.e4[1][2] = 3",
             "local.e1 = vector_length 5",
             "local.e1 = 1::2\nlocal.e1[5] = 1",
         ]
@@ -334,6 +333,7 @@ class Gen:
                                   r.choice(["println", "print"]), " ".join(self.expr(2) for _ in range(n)))]
         if k < 0.93 and self.threads:
             name, n = r.choice(self.threads)
+            n = max(0, n + r.choice([0, 0, 0, -1, 1]))
             self.feat.add("thread-call")
             form = r.choice(["thread %s %s", "waitthread %s %s", "local thread %s %s", "local.t = thread %s %s", "local.t = waitthread %s %s",
                              "local.t = local thread %s %s", "local.t = level waitthread %s %s"])
@@ -687,12 +687,16 @@ def check(res, tier, seed):
     except (BrokenTie, OSError) as ex:
         tie_broken = str(ex)
     pst = vlib.proof_stage(res, UNIT, extra_targets=["%s/Extract.vo" % UNIT], dirs=["Base", UNIT])
+    proof_broken = None
     if tie_broken or not pst["ok"]:
-        res.violation({"property": CID, "kind": "proof-broken",
-                       "broken": tie_broken or "Coq build of C02/Properties.vo (the regenerated opcode table no longer matches the instruction model, or a proof no longer checks)",
-                       "hygiene": pst.get("hygiene"), "log": pst.get("build_log", "")[-3000:] + str(pst.get("props", {}).get("log", ""))[-3000:]},
-                      no_input=True)
-        return
+        proof_broken = {"property": CID, "kind": "proof-broken",
+                        "broken": tie_broken or "Coq build of C02/Properties.vo (the regenerated opcode table no longer matches the instruction model, or a proof no longer checks)",
+                        "hygiene": pst.get("hygiene"), "log": pst.get("build_log", "")[-3000:] + str(pst.get("props", {}).get("log", ""))[-3000:]}
+        # look for a concrete failing input all the same when the extracted verifier can still be built
+        ok_extract, _ = vlib.coq_make(["%s/Extract.vo" % UNIT])
+        if table is None or not ok_extract:
+            res.violation(proof_broken, no_input=True)
+            return
     # which table entries differ from the model (all must be in the allowed list: theorem table_matches_decode)
     rc, o, e = vlib.sh([vlib.ocaml_driver(UNIT), "tablecheck"], timeout=60)
     names = {n: en for n, en, *_ in table["ops"]}
@@ -761,6 +765,8 @@ def check(res, tier, seed):
             res.known_finding(known[0].get("what", rec["signature"]))
         else:
             res.violation(rec)
+    if proof_broken and not any(not ni for _, ni in res.violations):
+        res.violation(proof_broken, no_input=True)
 
 
 def replay(path):
